@@ -589,6 +589,9 @@ def c18_jobs(tier):
     if tier == "thorough":
         sel.extend(c01_jobs("quick") + c03_jobs("quick") + c07_jobs("quick") + c08_jobs("quick") + c11_jobs("quick") + c14_jobs("quick") +
                    c15_jobs("quick") + c16_jobs("quick") + c17_jobs("quick") + c19_jobs("quick") + c20_jobs("quick") + c10_jobs("quick"))
+    sel.append(job(MSG, "HNames", []))
+    for m, n in ((0, 16), (1 | 8, 3), (64, 20)):
+        sel.append(job(EAP, "HNames", [m, n]))
     out = []
     for j in sel:
         j = dict(j)
